@@ -51,8 +51,10 @@ def check_invariants(inp):
     alg = agnostic_fed_avg.agnostic_federated_averaging(pel, sgd, mom, hp, php, inp.get('init_weights', [0.3, 0.7]), 0.5,
                                                         domain_window_size=W, init_domain_window=[1., 1.])
     st = alg.init(p0())
+    kept = []
     for r, sizes in enumerate(rounds):
       cl = clients_for(r, sizes)
+      kept.append((r, st, [np.array(x) for x in st.domain_window], np.array(st.domain_weights)))
       counts = np.zeros(2)
       for _, d, _ in cl:
         for dd in (0, 1):
@@ -64,6 +66,12 @@ def check_invariants(inp):
         return f'agnostic: round {r + 1} domain weights {w} are not a probability vector'
       if len(st.domain_window) != W:
         return f'agnostic: window length {len(st.domain_window)} != {W} after round {r + 1}'
+      for r0, s0, w0, dw0 in kept:
+        if len(s0.domain_window) != len(w0) or not all(np.array_equal(np.asarray(a), b) for a, b in zip(s0.domain_window, w0)) \
+            or not np.array_equal(np.asarray(s0.domain_weights), dw0):
+          return (f'agnostic: the state that entered round {r0 + 1} no longer holds its window / weights after round {r + 1} '
+                  f'(window now {[np.asarray(a).tolist() for a in s0.domain_window]}, was {[b.tolist() for b in w0]}): '
+                  'a returned state shares its window list with the input state')
       want = prev[1:] + [counts]
       if not all(np.allclose(a, b) for a, b in zip([np.asarray(x) for x in st.domain_window], want)):
         return f'agnostic: window after round {r + 1} is not (old window without oldest) + [this round counts]'
